@@ -565,6 +565,7 @@ NOTE:
             return x[-1] if onexit is None else onexit(x[-1][:])
         # cycle constraints until there's no change
         _constraints = it.cycle(constraints) 
+        since = n # number of constraints applied since the last randomize
         for j in range(n,maxiter):
             e = None
             try:
@@ -579,11 +580,13 @@ NOTE:
                     ci = x[-1][:] #XXX: do something else?
                 else: raise exc
             x.append(ci.tolist() if hasattr(ci, 'tolist') else ci)
-            if all(xi == x[-1] for xi in x[-n:]) and e is None:
+            since += 1
+            if since >= n and all(xi == x[-1] for xi in x[-n:]) and e is None:
                 return x[-1] if onexit is None else onexit(x[-1][:])
             # may be trapped in a cycle... randomize
             if x[-1] == x[-(n+1)]:
                 x[-1] = [(i+rnd.randint(-1,1))*rnd.random() for i in x[-1]]
+                since = 0
             if not j%(2*n):
                 del x[:n]
         # give up #XXX: or fail with Error?
